@@ -644,6 +644,100 @@ func VerifC04GCUnderIterator() {
 	verifReach("end")
 }
 
+// VerifC09ReaderOpenVsGC: a reader and a garbage-collection pass on two goroutines. The reader has chosen the
+// pointer of the domain it is about to read and is opening the data file; the whole GC pass runs at that very
+// moment (the file has no registered handle yet, so GC does not skip it) and moves the domain inside the file.
+// Whatever the schedule, the bytes the reader returns are the bytes of its domain.
+func VerifC09ReaderOpenVsGC() {
+	n := 3
+	specs := make([]VerifDomainSpec, n)
+	for i := range specs {
+		d := []byte{byte(16*(i+1) + 0), byte(16*(i+1) + 1), byte(16*(i+1) + 2)}
+		specs[i] = VerifDomainSpec{Start: telem.TimeStamp(100 * (i + 1)), End: telem.TimeStamp(100*(i+1) + 30), Data: d}
+	}
+	mem := xfs.NewMem()
+	hook := &xfs.VerifHookFS{FS: mem}
+	cfg := Config{FS: hook, FileSize: 7, GCThreshold: 0.2}
+	db := verifBuildRealDBCfg(cfg, specs, nil)
+	ctx := context.Background()
+	res := func(_ context.Context, domainStart telem.TimeStamp, ts telem.TimeStamp) (telem.Size, telem.TimeStamp, error) {
+		return telem.Size((ts - domainStart) / 10), ts, nil
+	}
+	dom, from := verifLen("cut.domain", 0, n-1), verifLen("cut.from", 0, 2)
+	to := verifLen("cut.to", from+1, 3)
+	base := telem.TimeStamp(100 * (dom + 1))
+	verifAssert("delete-ok", db.Delete(ctx, telem.TimeRange{Start: base + telem.TimeStamp(10*from), End: base + telem.TimeStamp(10*to)}, res, res) == nil)
+	want, ok := verifScan(db)
+	verifAssert("scan-before-gc-ok", ok)
+	if len(want) == 0 {
+		return
+	}
+	// the scan left file handles in the reader pool (GC skips files with handles): start from a reopened DB
+	if err := db.Close(); err != nil {
+		panic(err)
+	}
+	var err0 error
+	if db, err0 = Open(cfg); err0 != nil {
+		panic(err0)
+	}
+	it := db.OpenIterator(IterRange(telem.TimeRangeMax))
+	at := verifLen("positioned-at", 0, len(want)-1)
+	verifAssert("seek-first", it.SeekFirst(ctx))
+	for k := 0; k < at; k++ {
+		verifAssert("advance", it.Next())
+	}
+	fired := false
+	var gcErr error
+	atOpen := verifBool("gc-while-the-reader-opens-the-file")
+	if atOpen {
+		hook.OnOpen = func(name string, flag int) {
+			if !fired && len(name) > 7 && name[len(name)-7:] == ".domain" && name != "index.domain" {
+				hook.OnOpen = nil
+				// garbage collection holds the file controller's readers lock (read side) while it compacts: if
+				// the reader holds the write side at this point the pass cannot run here — it waits
+				if !db.fc.readers.TryRLock() {
+					return
+				}
+				db.fc.readers.RUnlock()
+				fired = true
+				gcErr = db.GarbageCollect(ctx)
+			}
+		}
+	}
+	r, err := it.OpenReader(ctx)
+	hook.OnOpen = nil
+	verifAssert("open-reader-ok", err == nil)
+	if err != nil {
+		return
+	}
+	verifObserveBool("gc-ran-inside-reader-open", fired)
+	if !fired {
+		// the pass runs (or resumes) once the reader has its handle
+		fired = true
+		gcErr = db.GarbageCollect(ctx)
+		verifReach("gc-ran-after-reader-open")
+	}
+	verifAssert("interleaved-gc-no-error", gcErr == nil)
+	buf := make([]byte, it.Size())
+	good := true
+	if len(buf) > 0 {
+		if _, err = r.ReadAt(buf, 0); err != nil {
+			good = false
+		}
+	}
+	verifAssert("reader-close", r.Close() == nil)
+	same := len(buf) == len(want[at].data)
+	for i := range buf {
+		if i < len(want[at].data) && buf[i] != want[at].data[i] {
+			same = false
+		}
+	}
+	verifAssert("read-ok", good)
+	verifAssert("reader-returns-the-bytes-of-its-domain", same)
+	verifAssert("iterator-close", it.Close() == nil)
+	verifReach("end")
+}
+
 // VerifC04GCInterleavedWriter: after a reopen, a file with free space and a tombstone is both a candidate for
 // garbage collection and available to new writers. A writer that is opened (and may start writing) while
 // GarbageCollect is between its "has this file a writer?" check and the compaction of that file and that
